@@ -524,7 +524,7 @@ theorem substitute_sem_removing {α : Type _} (h m h' : NNet) (c : Nat) (hw : h.
     (z : α) (neg : α → α) (prim : String → α → α → α → α → α) :
     ∃ (h5 : NNet) (map : Array (Option Nat)) (dang : List (Option Nat)) (r : Ren),
       substituteCore h c m = some (h5, map, dang) ∧ SubstSemStmt h m h5 c z neg prim ∧ h'.wfNoTrail = true ∧
-      (keepsAllB h c m = true → h' = h5) ∧
+      (keepsAllB h c m = true → h' = { h5 with net := densify h5.net map }) ∧ (keepsAllB h c m = true → denseB h c m = true → h' = h5) ∧
       (∀ j', j' < h'.net.nodes.size → r.node j' < h5.net.nodes.size ∧ (h'.net.node j').kind = (h5.net.node (r.node j')).kind ∧
         h'.names.getD j' "" = h5.names.getD (r.node j') "" ∧
         ∀ k, ((h'.net.node j').inPin k).map r.line = (h5.net.node (r.node j')).inPin k) ∧
@@ -556,7 +556,17 @@ theorem substitute_sem_removing {α : Type _} (h m h' : NNet) (c : Nat) (hw : h.
           (∀ l, l < h.net.lines.size → v5 l = v l) ∧ (∀ d, d < h.net.nodes.size → d ≠ c → an5 d = an d)) := by
   obtain ⟨h5, map, dang, sh, dn, r, hcore, ct, w', e, sq, ex⟩ :=
     substitute_removing z neg prim h m h' c (WF.of_wf hw) (WF.of_wf mw) hc hio hcf hr hok he
-  refine ⟨h5, map, dang, r, hcore, ?_, wfNoTrail_of_WFm w', ?_,
+  have hkeep : keepsAllB h c m = true → h' = { h5 with net := densify h5.net map } := by
+    intro hk
+    obtain ⟨_, _, h5', map', dang', _, _, hcore', e', _⟩ := substitute_keepsAll_eq h c m h' hk he (fun h5' map' dang' hc' => by
+      rw [hcore] at hc'
+      rw [← (Prod.mk.inj (Option.some.inj hc')).1]; exact ct.wf')
+    rw [hcore] at hcore'
+    obtain ⟨e1, e2⟩ := Prod.mk.inj (Option.some.inj hcore')
+    obtain ⟨e2, _⟩ := Prod.mk.inj e2
+    subst e1 e2
+    exact e'
+  refine ⟨h5, map, dang, r, hcore, ?_, wfNoTrail_of_WFm w', hkeep, ?_,
     fun j' hj => ⟨e.nodeLt j' hj, e.kind j' hj, e.name j' hj, e.pins j' hj (fun x => x)⟩, e.nodeInj, e.io,
     sq, fun l' hl => ⟨e.lineLt l' hl, (e.drv l' hl).2.1⟩, fun S an v hc => e.restrict S z neg prim an v hc,
     fun S an v hc hrem => e.extend S z neg prim an v hc hrem, ?_, ?_⟩
@@ -574,10 +584,9 @@ theorem substitute_sem_removing {α : Type _} (h m h' : NNet) (c : Nat) (hw : h.
       fun j x hm => ⟨ct.mapM j x hm, ct.mapGe j x hm, ct.mapLt j x hm, ct.kind' j x hm⟩, ct.mapInj, ct.io', ct.frameNode, ct.lsize,
       fun S hS an' v' hc' => ct.forward z neg prim S hS an' v' hc',
       fun S an v anm vm hH hM => ct.backward z neg prim S an v anm vm hH hM⟩
-  · intro hk
-    obtain ⟨_, _, map', dang', _, _, hcore', _⟩ := substitute_keepsAll_eq h c m h' hk he
-    rw [hcore] at hcore'
-    exact (Prod.mk.inj (Option.some.inj hcore')).1.symm
+  · intro hk hdn
+    rw [hkeep hk]
+    exact densNN_of_denseB h c m h5 map dang hcore hdn
 
 /-- `ConsOff` without holes is consistency, and consistency in the node-indexed form is `consistentB` (Model/Net.lean,
     the gate-by-gate meaning used by C01): the labelling as an array, the assignment by `s_nodes` position -/
